@@ -6,31 +6,52 @@ Mirrors
   transaction's postings (`posts_list initial_posts(xact.posts.begin(), …)`),
   `if (initial_post->has_flags(ITEM_GENERATED)) continue;`, the predicate with
   the quick account-only path and its memo (`try_quick_match`,
-  `memoized_results`, xact.cc 709-739; `post_pred`, xact.cc 638-680), the amount
-  rule (xact.cc 786-790: `if (! post_amount.commodity()) amt =
-  initial_post->amount * post_amount; else amt = post_amount;`), the account
-  (`$account` substitution, xact.cc 815-825), `copy_details` (kind and position
-  of the rule line), `add_flags(ITEM_GENERATED)`, `xact.add_post` (append), and
-  the re-verification `if (needs_further_verification) xact.verify()`
-  (xact.cc 873-880, 425-472);
+  `memoized_results`, xact.cc 709-739; `post_pred`, xact.cc 638-680), for a
+  matching posting: the rule-level deferred notes appended to the MATCHED posting
+  (xact.cc 742-749), the `check` / `assert` / `expr` lines (xact.cc 751-764: a
+  failing `assert` throws, a failing `check` warns), then per rule line: the amount
+  (xact.cc 766-790: a null amount means an amount expression, evaluated in the
+  matched posting's scope, must yield an integer or an amount; `if (!
+  post_amount.commodity()) amt = initial_post->amount * post_amount; else amt =
+  post_amount;`), the account (`$account` / `%(…)`, xact.cc 815-833),
+  `copy_details` (flags = kind, state, note, position of the rule line; item.h
+  118-128), `new_post->cost = post->cost` (xact.cc 839-840), a CLEARED transaction
+  clears the new posting (xact.cc 844-847), `add_flags(ITEM_GENERATED)`, the
+  deferred notes of the rule / of that line (xact.cc 854-862), `xact.add_post`
+  (append), and the re-verification `if (needs_further_verification)
+  xact.verify()` (xact.cc 873-880, 425-472: running balance of `cost ? cost :
+  amount`, "cost must be of a different commodity", zero test);
+* `any()` / `all()` (post.cc 377-423) walk the LIVE `post.xact->posts`, i.e. they
+  see the postings this pass has already appended;
 * `journal_t::add_xact` / `journal_t::extend_xact` (journal.cc 365-380, 445-449):
   `finalize()` first, then every rule seen SO FAR, in file order;
 * the part of `xact_base_t::finalize` (xact.cc 158-423) the journals of the
-  fragment reach: the running balance of the must-balance postings, one elided
-  amount filled with the negated balance (`add_balancing_post`, xact.cc 125-155:
-  the first commodity goes to the elided posting, every further commodity is a
-  new posting flagged `ITEM_GENERATED | POST_CALCULATED`), the zero test;
+  fragment reach: total costs (`FinX.parseCost`, textual.cc 1607-1622), the
+  running balance, `exchange()` annotating a posting that has a cost with the lot
+  {per-unit price} [transaction date] (xact.cc 287-345, pool.cc 240-320; the
+  quantity is unchanged), one elided amount filled with the negated balance
+  (`add_balancing_post`, xact.cc 125-155), the zero test;
 * the display precision a commodity has learned from the amounts parsed so far
-  (amount.cc `parse`: `if (quantity->prec > commodity().precision())
-  commodity().set_precision(…)`), which `is_zero` and the precision clamp of
-  `*` read.
+  (amount.cc `parse`; costs and lot prices are parsed PARSE_NO_MIGRATE and do not
+  count).
 
-Outside the model (the driver answers `unsupported`): posting costs, lot
-annotations, balance assertions, amount expressions in rule lines, `%(…)`
-account formats, rule notes / `check` / `assert` lines, the implied-price path of
-finalize (two commodities, nothing elided).  Core Lean only.
+Commodities are strings; a lot-annotated commodity is the string
+`BASE{num/den:PRICECOMM}[day]` (`lotComm`), so that distinct lots are distinct
+balance keys exactly as distinct `annotated_commodity_t` objects are; the
+display precision of a lot is its base commodity's (`baseComm`).
+
+Expressions (amount expressions of rule lines, check/assert lines) are C15's
+`Expr` evaluated by `evalWith` with `amount` bound to the matched posting's
+amount.
+
+Outside the model (the driver answers `unsupported`): balance assertions, a cost
+on a posting that already carries a lot price (gain/loss path), the implied-price
+path of finalize (two commodities, nothing elided, no cost), `any(e, false)`,
+tags/metadata parsed out of notes.  Core Lean only.
 -/
 import LedgerModel.Model.Journal
+import LedgerModel.Model.Expr
+import LedgerModel.Model.Finalize
 
 namespace Ledger
 namespace AutoXact
@@ -43,7 +64,10 @@ abbrev Matcher := String → String → Bool
 structure FPost where
   account    : String
   kind       : PostKind
+  state      : ItemState
   amount     : Amount
+  cost       : Option Amount     -- `post->cost`: TOTAL cost, signed
+  note       : Option String
   line       : Nat
   generated  : Bool      -- ITEM_GENERATED
   calculated : Bool      -- POST_CALCULATED
@@ -52,16 +76,21 @@ deriving DecidableEq, Repr
 /-- `post_t::must_balance()`. -/
 def FPost.mustBalance (p : FPost) : Bool := p.kind ≠ .virtual
 
+/-- `item_t::append_note` (item.cc 225-237), the text part. -/
+def FPost.appendNote (p : FPost) (t : String) : FPost :=
+  { p with note := some (match p.note with
+                         | some n => n ++ "\n" ++ t
+                         | none => t) }
+
 structure FXact where
   payee : String
   line  : Nat
+  state : ItemState
   posts : List FPost
 deriving DecidableEq, Repr
 
-/-- Predicates of the fragment: what `= …` parses to for account terms
-    (`account =~ /pat/`), `payee` terms and `expr` over `amount <cmp> N`,
-    combined with `! & | ?:` (op.h kinds VALUE, O_MATCH, O_NOT, O_AND, O_OR,
-    O_QUERY, O_GT, O_LT, O_GTE, O_LTE). -/
+/-- Predicates of the fragment (op.h kinds VALUE, O_MATCH, O_NOT, O_AND, O_OR,
+    O_QUERY, O_GT, O_LT, O_GTE, O_LTE, O_CALL of `any` / `all`). -/
 inductive Pred
   | const (b : Bool)
   | acct (pat : String)
@@ -74,14 +103,14 @@ inductive Pred
   | and (a b : Pred)
   | or (a b : Pred)
   | ite (c a b : Pred)
+  | any (a : Pred)
+  | all (a : Pred)
 deriving DecidableEq, Repr
 
-/-- The general evaluator (`predicate(bound_scope)`, expr_t::calc) on the
-    fragment.  `payee` is the transaction's payee (post.cc `get_payee`); the
-    amount comparisons are `value_t::is_less_than`/`is_greater_than` AMOUNT vs
-    INTEGER cells, i.e. the order of the exact quantities (`Value.gt`/`Value.lt`,
-    see `Lemmas/AutoXact.lean` `eval_amtGt_value`). -/
-def Pred.eval (m : Matcher) (payee : String) (p : FPost) : Pred → Bool
+/-- The general evaluator (`predicate(bound_scope)`) on the fragment.  `ctx` is
+    the transaction's CURRENT posting list (what `post.xact->posts` holds when the
+    predicate runs), read by `any` / `all` only. -/
+def Pred.eval (m : Matcher) (ctx : List FPost) (payee : String) (p : FPost) : Pred → Bool
   | .const b => b
   | .acct pat => m pat p.account
   | .payee pat => m pat payee
@@ -89,10 +118,22 @@ def Pred.eval (m : Matcher) (payee : String) (p : FPost) : Pred → Bool
   | .amtLt n => decide (p.amount.q < (n : Rat))
   | .amtGe n => decide ((n : Rat) ≤ p.amount.q)
   | .amtLe n => decide (p.amount.q ≤ (n : Rat))
-  | .not a => !(a.eval m payee p)
-  | .and a b => a.eval m payee p && b.eval m payee p
-  | .or a b => a.eval m payee p || b.eval m payee p
-  | .ite c a b => if c.eval m payee p then a.eval m payee p else b.eval m payee p
+  | .not a => !(a.eval m ctx payee p)
+  | .and a b => a.eval m ctx payee p && b.eval m ctx payee p
+  | .or a b => a.eval m ctx payee p || b.eval m ctx payee p
+  | .ite c a b => if c.eval m ctx payee p then a.eval m ctx payee p else b.eval m ctx payee p
+  | .any a => ctx.any (fun q => a.eval m ctx payee q)
+  | .all a => ctx.all (fun q => a.eval m ctx payee q)
+
+/-- no `any` / `all` inside: the predicate reads the posting and the payee only. -/
+def Pred.anyFree : Pred → Bool
+  | .not a => a.anyFree
+  | .and a b => a.anyFree && b.anyFree
+  | .or a b => a.anyFree && b.anyFree
+  | .ite c a b => c.anyFree && a.anyFree && b.anyFree
+  | .any _ => false
+  | .all _ => false
+  | _ => true
 
 /-- `post_pred` (xact.cc 638-680): the quick evaluator.  It reads nothing but
     the posting's account name; `none` = `throw_(calc_error, "Unhandled
@@ -105,6 +146,8 @@ def Pred.quick (m : Matcher) (account : String) : Pred → Option Bool
   | .amtLt _ => none
   | .amtGe _ => none
   | .amtLe _ => none
+  | .any _ => none
+  | .all _ => none
   | .not a => (a.quick m account).map (!·)
   | .and a b =>
     match a.quick m account with
@@ -133,71 +176,221 @@ def RState.init : RState := { tryQuick := true, memo := [] }
 
 /-- xact.cc 708-739: decide whether one initial posting matches, updating the
     rule's matching state. -/
-def matchPost (m : Matcher) (pr : Pred) (payee : String) (st : RState) (p : FPost) : Bool × RState :=
+def matchPost (m : Matcher) (pr : Pred) (ctx : List FPost) (payee : String) (st : RState) (p : FPost) :
+    Bool × RState :=
   if st.tryQuick then
     match st.memo.lookup p.account with
     | some b => (b, st)
     | none =>
       match pr.quick m p.account with
       | some b => (b, { st with memo := (p.account, b) :: st.memo })
-      | none => (pr.eval m payee p, { st with tryQuick := false })
-  else (pr.eval m payee p, st)
+      | none => (pr.eval m ctx payee p, { st with tryQuick := false })
+  else (pr.eval m ctx payee p, st)
 
-/-- One posting line of a rule. `amount.comm = ""` ⇒ a multiplier. The account
-    may contain `$account`. -/
+/-- the amount column of a rule line: a literal (`amount.comm = ""` ⇒ a
+    multiplier) or a deferred amount expression `( … )`. -/
+inductive RAmt
+  | lit (a : Amount)
+  | expr (e : Expr)
+deriving DecidableEq, Repr
+
+/-- One posting line of a rule.  `cost` is the TOTAL cost computed when the rule
+    was parsed (textual.cc 1607-1622). The account may contain `$account`,
+    `%(account)`, `%(payee)`. -/
 structure RuleLine where
   account : String
   kind    : PostKind
-  amount  : Amount
+  state   : ItemState
+  amt     : RAmt
+  cost    : Option Amount
+  note    : Option String
   line    : Nat
 deriving DecidableEq, Repr
 
-structure Rule where
-  pred  : Pred
-  lines : List RuleLine
-  line  : Nat
+inductive CheckKind
+  | assert     -- `assert EXPR`   EXPR_ASSERTION
+  | check      -- `check EXPR`    EXPR_CHECK
+  | general    -- `expr EXPR` / `eval EXPR`   EXPR_GENERAL
 deriving DecidableEq, Repr
 
-/-- xact.cc 819-825: `regex_replace(fullname, regex("\\$account\\>"), matched)`.
-    (The `\>` word-boundary is not modelled: generators never follow
-    `$account` by a word character.) -/
-def substAccount (tmpl matched : String) : String := tmpl.replace "$account" matched
+structure Check where
+  kind : CheckKind
+  expr : Expr
+deriving DecidableEq, Repr
 
-/-- xact.cc 786-790: the amount of a generated posting. -/
-def genAmount (env : PrecEnv) (l : RuleLine) (matched : Amount) : Amount :=
-  if l.amount.hasComm then l.amount else Amount.mul env matched l.amount
+/-- a `; note` line of the rule: `applyTo = none` when it precedes every posting
+    line (`active_post == NULL`), else the index of the posting line it follows. -/
+structure RNote where
+  text    : String
+  applyTo : Option Nat
+deriving DecidableEq, Repr
 
-/-- xact.cc 766-875: the posting generated for rule line `l` and matched
-    posting `ip`. -/
-def genPost (env : PrecEnv) (ip : FPost) (l : RuleLine) : FPost :=
-  { account := substAccount l.account ip.account, kind := l.kind,
-    amount := genAmount env l ip.amount, line := l.line,
-    generated := true, calculated := false }
+structure Rule where
+  pred   : Pred
+  lines  : List RuleLine
+  notes  : List RNote
+  checks : List Check
+  line   : Nat
+deriving DecidableEq, Repr
 
-/-- The loop of xact.cc 702-877 over the snapshot `initial_posts`; returns the
-    rule's new matching state and the postings appended, in order. -/
-def extendGo (m : Matcher) (env : PrecEnv) (r : Rule) (payee : String) :
-    RState → List FPost → RState × List FPost
-  | st, [] => (st, [])
-  | st, ip :: rest =>
-    if ip.generated then extendGo m env r payee st rest
+inductive LErr
+  | unbalanced      -- "Transaction does not balance"
+  | sameCommCost    -- "A posting's cost must be of a different commodity than its amount"
+  | assertFailed    -- "Transaction assertion failed: …"
+  | exprError       -- an amount / check expression raises, or "Amount expressions must result in a simple amount"
+  | twoNulls        -- "Only one posting with null amount allowed per transaction"
+  | nullAmount      -- a null amount that finalize cannot fill
+  | unsupported     -- outside the modelled fragment
+deriving DecidableEq, Repr
+
+/-! ### commodities with lots -/
+
+/-- the base symbol of a (possibly lot-annotated) commodity string. -/
+def baseComm (c : Comm) : Comm := String.ofList (c.toList.takeWhile (· ≠ '{'))
+
+def hasLot (c : Comm) : Bool := c.toList.contains '{'
+
+/-- the commodity `exchange()` creates: BASE {price} [date]. -/
+def lotComm (base : Comm) (price : Amount) (date : Int) : Comm :=
+  base ++ "{" ++ ratStr price.q ++ ":" ++ price.comm ++ "}[" ++ toString date ++ "]"
+
+/-- an annotated commodity has its base commodity's display precision. -/
+def lotEnv (env : PrecEnv) : PrecEnv := fun c => env (baseComm c)
+
+/-! ### one matched posting -/
+
+def substAll (s pat rep : String) : String := s.replace pat rep
+
+/-- xact.cc 815-833: `regex_replace(fullname, regex("\\$account\\>"), matched)`,
+    else a `%(…)` format evaluated in the matched posting's scope (modelled for
+    the two fields `%(account)` and `%(payee)`).  (The `\>` word-boundary is not
+    modelled: generators never follow `$account` by a word character.) -/
+def substAccount (tmpl matched payee : String) : String :=
+  if (tmpl.splitOn "$account").length > 1 then substAll tmpl "$account" matched
+  else if (tmpl.splitOn "%(").length > 1 then substAll (substAll tmpl "%(account)" matched) "%(payee)" payee
+  else tmpl
+
+def exprFuel : Nat := 400
+
+/-- `expr.calc(bound_scope)` in the scope of posting `p`: `amount` is the
+    posting's amount (post.cc `get_amount`). -/
+def evalPostExpr (env : PrecEnv) (p : FPost) (e : Expr) : Res RVal :=
+  evalWith env true exprFuel [("amount", .val (.amt p.amount))] e
+
+/-- xact.cc 766-790: the amount of a generated posting. -/
+def genAmount (env : PrecEnv) (a : RAmt) (matched : FPost) : Except LErr Amount :=
+  match a with
+  | .lit x => .ok (if x.hasComm then x else Amount.mul env matched.amount x)
+  | .expr e =>
+    match evalPostExpr env matched e with
+    | .ok (.v (.int n)) => .ok (Amount.mul env matched.amount (Amount.ofInt n))
+    | .ok (.v (.amt x)) => .ok (if x.hasComm then x else Amount.mul env matched.amount x)
+    | _ => .error .exprError
+
+/-- the deferred notes that reach the posting generated for rule line `i`
+    (xact.cc 856: `! data.apply_to_post || data.apply_to_post == post`). -/
+def notesFor (r : Rule) (i : Nat) : List String :=
+  (r.notes.filter (fun n => n.applyTo.isNone || n.applyTo == some i)).map (·.text)
+
+/-- the deferred notes appended to the MATCHED posting (xact.cc 744). -/
+def ruleLevelNotes (r : Rule) : List String :=
+  (r.notes.filter (fun n => n.applyTo.isNone)).map (·.text)
+
+def annotate (r : Rule) (ip : FPost) : FPost := (ruleLevelNotes r).foldl FPost.appendNote ip
+
+/-- xact.cc 766-875: the posting generated for rule line `l` (index `i`) and
+    matched posting `ip` of transaction `x`. -/
+def genPost (env : PrecEnv) (r : Rule) (x : FXact) (ip : FPost) (i : Nat) (l : RuleLine) : Except LErr FPost :=
+  match genAmount env l.amt ip with
+  | .error e => .error e
+  | .ok a =>
+    .ok ((notesFor r i).foldl FPost.appendNote
+      { account := substAccount l.account ip.account x.payee, kind := l.kind,
+        state := if x.state = 1 then 1 else l.state,
+        amount := a, cost := l.cost, note := l.note, line := l.line,
+        generated := true, calculated := false })
+
+/-- all lines of the rule for one matched posting, in order (`foreach (post_t *
+    post, posts)`); `i` is the index of the head of `ls`. -/
+def genLines (env : PrecEnv) (r : Rule) (x : FXact) (ip : FPost) : Nat → List RuleLine → Except LErr (List FPost)
+  | _, [] => .ok []
+  | i, l :: ls =>
+    match genPost env r x ip i l with
+    | .error e => .error e
+    | .ok g =>
+      match genLines env r x ip (i + 1) ls with
+      | .error e => .error e
+      | .ok gs => .ok (g :: gs)
+
+/-- xact.cc 751-764: the `check` / `assert` / `expr` lines for one matched
+    posting; the result counts the warnings. -/
+def runChecks (env : PrecEnv) (ip : FPost) : List Check → Except LErr Nat
+  | [] => .ok 0
+  | c :: cs =>
+    match evalPostExpr env ip c.expr with
+    | .error _ => .error .exprError
+    | .ok v =>
+      match c.kind with
+      | .general => runChecks env ip cs
+      | .assert => if v.truth env then runChecks env ip cs else .error .assertFailed
+      | .check =>
+        match runChecks env ip cs with
+        | .error e => .error e
+        | .ok k => .ok (if v.truth env then k else k + 1)
+
+/-! ### the loop of extend_xact -/
+
+structure LoopOut where
+  /-- the original postings, in place (matched ones carry the rule-level notes) -/
+  origs : List FPost
+  /-- the postings appended, in order -/
+  added : List FPost
+  /-- number of `check` warnings -/
+  warns : Nat
+deriving DecidableEq, Repr
+
+/-- The loop of xact.cc 702-877 over the snapshot, generic in how a posting is
+    decided to match (`dec state ctx posting`): `done` are the snapshot postings
+    already visited, `rest` those to come, `added` what has been appended; the
+    live list `post.xact->posts` is `done ++ rest ++ added`. -/
+def loop {σ : Type} (dec : σ → List FPost → FPost → Bool × σ) (env : PrecEnv) (r : Rule) (x : FXact) :
+    σ → List FPost → List FPost → List FPost → Nat → σ × Except LErr LoopOut
+  | st, done, [], added, w => (st, .ok { origs := done, added := added, warns := w })
+  | st, done, ip :: rest, added, w =>
+    if ip.generated then loop dec env r x st (done ++ [ip]) rest added w
     else
-      let mr := matchPost m r.pred payee st ip
-      let g := extendGo m env r payee mr.2 rest
-      (g.1, (if mr.1 then r.lines.map (genPost env ip) else []) ++ g.2)
+      let d := dec st (done ++ ip :: rest ++ added) ip
+      if d.1 then
+        match runChecks env (annotate r ip) r.checks with
+        | .error e => (d.2, .error e)
+        | .ok k =>
+          match genLines env r x (annotate r ip) 0 r.lines with
+          | .error e => (d.2, .error e)
+          | .ok gens => loop dec env r x d.2 (done ++ [annotate r ip]) rest (added ++ gens) (w + k)
+      else loop dec env r x d.2 (done ++ [ip]) rest added w
 
-/-- `auto_xact_t::extend_xact` without the final `verify()`. -/
-def extend (m : Matcher) (env : PrecEnv) (r : Rule) (st : RState) (x : FXact) : RState × FXact :=
-  let g := extendGo m env r x.payee st x.posts
-  (g.1, { x with posts := x.posts ++ g.2 })
+/-- the code: memo + quick path + fallback. -/
+def extendGo (m : Matcher) (env : PrecEnv) (r : Rule) (x : FXact) (st : RState) :
+    RState × Except LErr LoopOut :=
+  loop (fun s ctx ip => matchPost m r.pred ctx x.payee s ip) env r x st [] x.posts [] 0
 
-/-- The running balance of xact.cc 429-444 / 164-181 (`add_or_set_value`) over
-    the must-balance postings, in order. -/
+/-- the specification: the general evaluator, no state. -/
+def specGo (m : Matcher) (env : PrecEnv) (r : Rule) (x : FXact) : Except LErr LoopOut :=
+  (loop (fun (u : Unit) ctx ip => (r.pred.eval m ctx x.payee ip, u)) env r x () [] x.posts [] 0).2
+
+/-- xact.cc 435-443: `cost ? cost : amount`, keep-precision flag cleared. -/
+def balAmount (p : FPost) : Amount :=
+  match p.cost with
+  | some c => { c with keep := false }
+  | none => { p.amount with keep := false }
+
+/-- The running balance of xact.cc 429-444 (`add_or_set_value`) over the
+    must-balance postings, in order. -/
 def residualFrom : Value → List FPost → Res Value
   | v, [] => .ok v
   | v, p :: ps =>
     if p.mustBalance then
-      match Value.add v (.amt p.amount) with
+      match Value.add v (.amt (balAmount p)) with
       | .ok v' => residualFrom v' ps
       | .error e => .error e
     else residualFrom v ps
@@ -211,64 +404,116 @@ def valueIsZero (env : PrecEnv) : Value → Bool
   | .amt a => a.isZero env
   | .bal b => b.all (Amount.isZero env)
 
-/-- `xact_base_t::verify` succeeds. -/
 def balanced (env : PrecEnv) (ps : List FPost) : Bool :=
   match residualFrom .void ps with
   | .ok v => valueIsZero env v
   | .error _ => false
 
-inductive LErr
-  | unbalanced      -- "Transaction does not balance"
-  | twoNulls        -- "Only one posting with null amount allowed per transaction"
-  | nullAmount      -- a null amount that finalize cannot fill
-  | unsupported     -- outside the modelled fragment
+/-- xact.cc 451-458: a posting whose cost has the commodity of its amount. -/
+def sameCommCost (ps : List FPost) : Bool :=
+  ps.any (fun p => match p.cost with
+                   | some c => c.comm == p.amount.comm
+                   | none => false)
+
+/-- `xact_base_t::verify`. -/
+def verify (env : PrecEnv) (ps : List FPost) : Except LErr Unit :=
+  if sameCommCost ps then .error .sameCommCost
+  else if balanced env ps then .ok ()
+  else .error .unbalanced
+
+/-- what one rule did to a transaction -/
+structure Ext where
+  xact  : FXact
+  added : List FPost
+  warns : Nat
 deriving DecidableEq, Repr
 
-/-- `extend_xact` including xact.cc 873-880: verify only when this rule added a
-    posting that must balance. -/
-def extendChecked (m : Matcher) (env : PrecEnv) (r : Rule) (st : RState) (x : FXact) :
-    RState × Except LErr FXact :=
-  let e := extend m env r st x
-  let added := (extendGo m env r x.payee st x.posts).2
-  if added.any FPost.mustBalance ∧ ¬ balanced env e.2.posts then (e.1, .error .unbalanced)
-  else (e.1, .ok e.2)
+/-- turn the loop's result into the extended transaction and run xact.cc
+    873-880: verify only when this rule added a posting that must balance. -/
+def finish (env : PrecEnv) (x : FXact) (o : Except LErr LoopOut) : Except LErr Ext :=
+  match o with
+  | .error e => .error e
+  | .ok o =>
+    let ps := o.origs ++ o.added
+    if o.added.any FPost.mustBalance then
+      match verify env ps with
+      | .error e => .error e
+      | .ok () => .ok { xact := { x with posts := ps }, added := o.added, warns := o.warns }
+    else .ok { xact := { x with posts := ps }, added := o.added, warns := o.warns }
+
+/-- `auto_xact_t::extend_xact`. -/
+def extend (m : Matcher) (env : PrecEnv) (r : Rule) (st : RState) (x : FXact) : RState × Except LErr Ext :=
+  ((extendGo m env r x st).1, finish env x (extendGo m env r x st).2)
+
+/-- its specification. -/
+def extendSpec (m : Matcher) (env : PrecEnv) (r : Rule) (x : FXact) : Except LErr Ext :=
+  finish env x (specGo m env r x)
 
 /-- `journal_t::extend_xact` (journal.cc 445-449): every rule registered so far,
     in order; an exception leaves the later rules untouched.  The error carries
-    the line of the rule that was being applied. -/
+    the line of the rule that was being applied; the Nat counts warnings. -/
 def applyRules (m : Matcher) (env : PrecEnv) :
-    List (Rule × RState) → FXact → List (Rule × RState) × Except (LErr × Nat) FXact
-  | [], x => ([], .ok x)
-  | (r, st) :: rs, x =>
-    match extendChecked m env r st x with
-    | (st', .ok x') =>
-      let g := applyRules m env rs x'
+    List (Rule × RState) → FXact → Nat → List (Rule × RState) × Except (LErr × Nat) (FXact × Nat)
+  | [], x, w => ([], .ok (x, w))
+  | (r, st) :: rs, x, w =>
+    match extend m env r st x with
+    | (st', .ok e) =>
+      let g := applyRules m env rs e.xact (w + e.warns)
       ((r, st') :: g.1, g.2)
     | (st', .error e) => ((r, st') :: rs, .error (e, r.line))
 
+def applyRulesSpec (m : Matcher) (env : PrecEnv) : List Rule → FXact → Nat → Except (LErr × Nat) (FXact × Nat)
+  | [], x, w => .ok (x, w)
+  | r :: rs, x, w =>
+    match extendSpec m env r x with
+    | .ok e => applyRulesSpec m env rs e.xact (w + e.warns)
+    | .error e => .error (e, r.line)
+
 /-! ### finalize (fragment) -/
 
-def toFPost (p : Posting) (a : Amount) (isCalc : Bool) : FPost :=
-  { account := p.account, kind := p.kind, amount := a, line := p.line,
-    generated := false, calculated := isCalc }
+def noteOf (s : String) : Option String := if s.isEmpty then none else some (" " ++ s)
 
-/-- running balance over the must-balance postings that carry an amount. -/
-def balanceOf : Value → List Posting → Res Value
+/-- a parsed posting before finalize: amount (none = elided) and total cost. -/
+structure PPost where
+  src    : Posting
+  amount : Option Amount
+  cost   : Option Amount
+
+def toPPost (env : PrecEnv) (p : Posting) : PPost :=
+  { src := p, amount := p.amount,
+    cost := match p.amount, p.cost with
+            | some a, some c => some (FinX.parseCost env a c)
+            | _, _ => none }
+
+/-- textual.cc 1480-1483: a posting without its own state takes the transaction's. -/
+def postState (xs ps : ItemState) : ItemState := if xs ≠ 0 ∧ ps = 0 then xs else ps
+
+def mkFPost (xs : ItemState) (p : Posting) (a : Amount) (c : Option Amount) (isCalc gen : Bool) : FPost :=
+  { account := p.account, kind := p.kind, state := postState xs p.state, amount := a, cost := c,
+    note := noteOf p.note, line := p.line, generated := gen, calculated := isCalc }
+
+/-- running balance of xact.cc 167-181 over the must-balance postings that carry an amount. -/
+def balanceOf : Value → List PPost → Res Value
   | v, [] => .ok v
   | v, p :: ps =>
-    match p.mustBalance, p.amount with
+    match p.src.mustBalance, p.amount with
     | true, some a =>
-      match Value.add v (.amt a) with
+      let b : Amount := match p.cost with
+        | some c => { c with keep := false }
+        | none => { a with keep := false }
+      match Value.add v (.amt b) with
       | .ok v' => balanceOf v' ps
       | .error e => .error e
     | _, _ => balanceOf v ps
 
 def insertByComm (a : Amount) : List Amount → List Amount
   | [] => [a]
-  | b :: bs => if a.comm ≤ b.comm then a :: b :: bs else b :: insertByComm a bs
+  | b :: bs =>
+    if baseComm a.comm < baseComm b.comm ∨ (baseComm a.comm = baseComm b.comm ∧ a.comm ≤ b.comm)
+    then a :: b :: bs else b :: insertByComm a bs
 
-/-- `balance_t::sorted_amounts` (balance.cc 273-283) on unannotated
-    commodities: by symbol. -/
+/-- `balance_t::sorted_amounts` (balance.cc 273-283): by base symbol, an
+    unannotated commodity before its lots. -/
 def sortByComm (l : List Amount) : List Amount := l.foldr insertByComm []
 
 /-- amounts handed to `add_balancing_post`, in order (xact.cc 363-370). -/
@@ -285,38 +530,68 @@ def impliedPrice (env : PrecEnv) (v : Value) : Bool :=
   | .bal [x, y] => !(x.isZero env) && !(y.isZero env)
   | _ => false
 
-def hasCostOrAssert (x : Xact) : Bool := x.posts.any (fun p => p.cost.isSome || p.assert.isSome)
+def ratAbs (q : Rat) : Rat := if q < 0 then -q else q
+
+/-- xact.cc 287-345 for one posting: a cost annotates the amount with the lot
+    {|total cost / amount|} [transaction date]. -/
+def annotateCost (env : PrecEnv) (date : Int) (p : PPost) : Except LErr PPost :=
+  match p.amount, p.cost with
+  | some a, some c =>
+    if hasLot a.comm then .error .unsupported
+    else if a.comm = c.comm then .error .sameCommCost
+    else if a.isZero env then .error .unsupported
+    else
+      let price : Amount := { q := ratAbs (c.q / a.q), prec := c.prec, keep := true, comm := c.comm }
+      .ok { p with amount := some { a with comm := lotComm a.comm price date } }
+  | _, _ => .ok p
+
+def mapExcept {α β ε} (f : α → Except ε β) : List α → Except ε (List β)
+  | [] => .ok []
+  | a :: as =>
+    match f a with
+    | .error e => .error e
+    | .ok b =>
+      match mapExcept f as with
+      | .error e => .error e
+      | .ok bs => .ok (b :: bs)
 
 /-- `xact_base_t::finalize` on the fragment. -/
 def finalize (env : PrecEnv) (x : Xact) : Except LErr FXact :=
-  if hasCostOrAssert x then .error .unsupported
+  if x.posts.any (fun p => p.assert.isSome) then .error .unsupported
   else
-    let nulls := x.posts.filter (fun p => p.amount.isNone)
+    let ps := x.posts.map (toPPost env)
+    let nulls := ps.filter (fun p => p.amount.isNone)
+    let mk (posts : List FPost) : FXact := { payee := x.payee, line := x.line, state := x.state, posts := posts }
     match nulls with
     | [] =>
-      match balanceOf .void x.posts with
+      match balanceOf .void ps with
       | .error _ => .error .unsupported
       | .ok v =>
-        if impliedPrice env v then .error .unsupported
-        else if valueIsZero env v then
-          .ok { payee := x.payee, line := x.line,
-                posts := x.posts.filterMap (fun p => p.amount.map (fun a => toFPost p a false)) }
-        else .error .unbalanced
+        if impliedPrice env v ∧ ps.all (fun p => p.cost.isNone) then .error .unsupported
+        else
+          match mapExcept (annotateCost env x.date) ps with
+          | .error e => .error e
+          | .ok ps' =>
+            if valueIsZero env v then
+              .ok (mk (ps'.filterMap (fun p => p.amount.map (fun a => mkFPost x.state p.src a p.cost false false))))
+            else .error .unbalanced
     | [np] =>
-      if ¬ np.mustBalance then .error .nullAmount
+      if ¬ np.src.mustBalance then .error .nullAmount
       else
-        match balanceOf .void x.posts with
+        match balanceOf .void ps with
         | .error _ => .error .unsupported
         | .ok v =>
-          match fillAmounts v with
-          | some (a :: more) =>
-            .ok { payee := x.payee, line := x.line,
-                  posts := x.posts.map (fun p => match p.amount with
-                                                 | some b => toFPost p b false
-                                                 | none => toFPost p a true)
-                           ++ more.map (fun b => { toFPost np b true with generated := true }) }
-          | _ => .error .nullAmount
-    | _ => if nulls.all Posting.mustBalance then .error .twoNulls else .error .nullAmount
+          match mapExcept (annotateCost env x.date) ps with
+          | .error e => .error e
+          | .ok ps' =>
+            match fillAmounts v with
+            | some (a :: more) =>
+              .ok (mk (ps'.map (fun p => match p.amount with
+                                         | some b => mkFPost x.state p.src b p.cost false false
+                                         | none => mkFPost x.state p.src a none true false)
+                       ++ more.map (fun b => mkFPost x.state np.src b none true true)))
+            | _ => .error .nullAmount
+    | _ => if nulls.all (fun p => p.src.mustBalance) then .error .twoNulls else .error .nullAmount
 
 /-! ### the journal -/
 
@@ -324,15 +599,38 @@ inductive Item
   | rule (r : Rule)
   | xact (x : Xact)
 
-/-- display precision learned so far, per commodity. -/
+/-- display precision learned so far, per (base) commodity. -/
 abbrev PrecTable := List (Comm × Nat)
 
-def PrecTable.get (t : PrecTable) : PrecEnv := fun c => (t.lookup c).getD 0
+def PrecTable.get (t : PrecTable) : PrecEnv := fun c => (t.lookup (baseComm c)).getD 0
 
 def PrecTable.bump (t : PrecTable) (a : Amount) : PrecTable :=
-  if a.hasComm then (a.comm, max a.prec (PrecTable.get t a.comm)) :: t else t
+  if a.hasComm then (baseComm a.comm, max a.prec (PrecTable.get t a.comm)) :: t else t
 
 def PrecTable.bumpAll (t : PrecTable) (l : List Amount) : PrecTable := l.foldl PrecTable.bump t
+
+/-- the amount literals inside an expression (they are parsed, and raise their
+    commodity's precision, when the rule is read). -/
+def exprLits : Expr → List Amount
+  | .val (.amt a) => [a]
+  | .ident _ d => exprLits d
+  | .scope b => exprLits b
+  | .un _ e => exprLits e
+  | .bin _ l r => exprLits l ++ exprLits r
+  | .query c a b => exprLits c ++ exprLits a ++ exprLits b
+  | .cons l r => exprLits l ++ exprLits r
+  | .seq l r => exprLits l ++ exprLits r
+  | .define l r => exprLits l ++ exprLits r
+  | .lambda p b => exprLits p ++ exprLits b
+  | .call f a => exprLits f ++ exprLits a
+  | _ => []
+
+/-- the amounts a rule's text makes ledger parse, in file order is immaterial (max). -/
+def ruleAmounts (r : Rule) : List Amount :=
+  r.lines.flatMap (fun l => match l.amt with
+                            | .lit a => [a]
+                            | .expr e => exprLits e)
+  ++ r.checks.flatMap (fun c => exprLits c.expr)
 
 structure LState where
   rules : List (Rule × RState)
@@ -340,8 +638,10 @@ structure LState where
   xacts : List FXact
   /-- (first line of the transaction, line of the rule being applied or 0, error) -/
   errs  : List (Nat × Nat × LErr)
+  /-- (first line of the transaction, number of `check` warnings) for accepted transactions -/
+  warns : List (Nat × Nat)
 
-def LState.init : LState := { rules := [], prec := [], xacts := [], errs := [] }
+def LState.init : LState := { rules := [], prec := [], xacts := [], errs := [], warns := [] }
 
 /-- textual.cc: a rule is registered (`auto_xacts.push_back`, 582-680) with a
     fresh matching state; a transaction is parsed (its amounts raise the
@@ -351,45 +651,21 @@ def LState.init : LState := { rules := [], prec := [], xacts := [], errs := [] }
 def step (m : Matcher) (s : LState) : Item → LState
   | .rule r =>
     { s with rules := s.rules ++ [(r, RState.init)],
-             prec := s.prec.bumpAll (r.lines.map (·.amount)) }
+             prec := s.prec.bumpAll (ruleAmounts r) }
   | .xact x =>
     let prec := s.prec.bumpAll (x.posts.filterMap (·.amount))
     match finalize prec.get x with
     | .error e => { s with prec := prec, errs := s.errs ++ [(x.line, 0, e)] }
     | .ok fx =>
-      let g := applyRules m prec.get s.rules fx
+      let g := applyRules m prec.get s.rules fx 0
       match g.2 with
-      | .ok fx' => { s with prec := prec, rules := g.1, xacts := s.xacts ++ [fx'] }
+      | .ok (fx', w) => { s with prec := prec, rules := g.1, xacts := s.xacts ++ [fx'],
+                                 warns := s.warns ++ [(x.line, w)] }
       | .error (e, rl) => { s with prec := prec, rules := g.1, errs := s.errs ++ [(x.line, rl, e)] }
 
 def loadFrom (m : Matcher) (s : LState) (items : List Item) : LState := items.foldl (step m) s
 
 def load (m : Matcher) (items : List Item) : LState := loadFrom m LState.init items
-
-/-! ### the stateless specification (no memo, no matching state)
-
-`Props/C16.lean` proves that the code-shaped definitions above compute exactly
-these. -/
-
-/-- posting `p` is an original (not generated) posting that satisfies the rule's predicate. -/
-def Rule.matches (m : Matcher) (r : Rule) (payee : String) (p : FPost) : Bool :=
-  !p.generated && r.pred.eval m payee p
-
-/-- what rule `r` adds for the posting list `ps`: for each matching posting in
-    order, one posting per rule line in order. -/
-def additions (m : Matcher) (env : PrecEnv) (r : Rule) (payee : String) (ps : List FPost) : List FPost :=
-  (ps.filter (r.matches m payee)).flatMap (fun ip => r.lines.map (genPost env ip))
-
-def extendSpec (m : Matcher) (env : PrecEnv) (r : Rule) (x : FXact) : FXact :=
-  { x with posts := x.posts ++ additions m env r x.payee x.posts }
-
-/-- all rules in order, each followed by its conditional re-verification. -/
-def applyRulesSpec (m : Matcher) (env : PrecEnv) : List Rule → FXact → Except (LErr × Nat) FXact
-  | [], x => .ok x
-  | r :: rs, x =>
-    if (additions m env r x.payee x.posts).any FPost.mustBalance ∧
-        ¬ balanced env (extendSpec m env r x).posts then .error (.unbalanced, r.line)
-    else applyRulesSpec m env rs (extendSpec m env r x)
 
 /-- the rules of a file prefix, in order. -/
 def rulesOf : List Item → List Rule
